@@ -23,10 +23,6 @@ CLAIMED = {
          "voxelisation convergence is out of reach; collections enumerated up to the stated member counts (bounded, not counted as proved); floats are mathematical reals"),
 }
 NA = {
- 'C02': "the agreement clauses compare values computed by the Fortran Lorenz-Mie and SCSMFO solvers (not built, cannot be built here), scipy's Bessel "
-        "functions and a textbook series - statements about special-function values in floating point that no contract over the Python code can "
-        "express or decide; the Python data-flow parts are claimed elsewhere (thickness/radius equivalence: C20 layered_by_thickness; size-parameter "
-        "hand-off: C04 mie_kernel_arguments); the equal-index-layer collapse lives in Yang's recursion inside the Fortran code (DESIGN.md section 7)",
  'C10': "every clause is about values returned by (or a STOP inside) Mishchenko's Fortran T-matrix code, which is not built and cannot be built in this "
         "sandbox; no contract on Python code can express or decide it (DESIGN.md section 7)",
 }
